@@ -528,3 +528,239 @@ Section Step2.
     intros r c Hr Hc. apply (Hdone r); auto.
   Qed.
 End Step2.
+
+(* ================================================================ cbca_step_4 *)
+
+Section Step4.
+  Variables (nr nc ncR : Z) (crossL crossR : Z -> Z -> arms) (d : Q) (s3 : Z -> Z -> Q) (sm2 : Z -> Z -> Z).
+  Variables (S3 SM2 CL CR RC RCR : arr) (cols : list Z).
+  Hypothesis Hnr : 0 <= nr.
+  Hypothesis Hnc : 0 <= nc.
+  Hypothesis HS3 : ashape S3 = [nr + 1; nc].
+  Hypothesis HS3d : forall r c, 0 <= r < nr + 1 -> 0 <= c < nc -> fval (adata S3 [r; c]) (s3 r c).
+  Hypothesis HSM2 : ashape SM2 = [nr; nc].
+  Hypothesis HSM2d : forall r c, 0 <= r < nr -> 0 <= c < nc -> fval (adata SM2 [r; c]) (inject_Z (sm2 r c)).
+  Hypothesis HCL : arms_arr CL nr nc crossL.
+  Hypothesis HCR : arms_arr CR nr ncR crossR.
+  Hypothesis HRC : ints_arr RC cols (fun c => c).
+  Hypothesis HRCR : ints_arr RCR cols (corr d).
+  Hypothesis Hnd : NoDup cols.
+  Hypothesis Hcols : forall c, In c cols -> 0 <= c < nc /\ 0 <= corr d c < ncR.
+  (* the combined arms stay inside the column (in-range condition of the reads of step3 / sum2) *)
+  Hypothesis Harms : forall r c, 0 <= r < nr -> In c cols ->
+    0 <= v_top crossL crossR d r c <= r /\ 0 <= v_bot crossL crossR d r c <= nr - 1 - r.
+
+  Let m := Z.of_nat (length cols).
+  Let E4 (r c : Z) : Q :=
+    qsub (s3 (r + v_bot crossL crossR d r c) c) (s3 (wrap (nr + 1) (r - v_top crossL crossR d r c - 1)) c).
+  Let N4 (r c : Z) : Z :=
+    let top := v_top crossL crossR d r c in
+    let bot := v_bot crossL crossR d r c in
+    sm2 r c + (top + bot)
+    + (if top =? 0 then 0 else zsum (map (fun k => sm2 k c) (zrange (r - top) top)))
+    + (if bot =? 0 then 0 else zsum (map (fun k => sm2 k c) (zrange (r + 1) bot))).
+
+  Lemma sum_fold : forall c l acc, 0 <= c < nc -> (forall k, In k l -> 0 <= k < nr) ->
+    exists q, fold_left (fun a k => fadd a (to_fl (adata SM2 [k; c]))) l (Fin acc) = Fin q /\
+              q == acc + inject_Z (zsum (map (fun k => sm2 k c) l)).
+  Proof.
+    induction l; intros acc Hc Hl; cbn [fold_left map].
+    - exists acc. split; [reflexivity|]. cbn [zsum fold_right]. change (inject_Z 0) with 0%Q. ring.
+    - destruct (HSM2d a c) as (qa & Ea & Ha); [apply Hl; left; reflexivity | exact Hc |].
+      rewrite Ea. cbn [to_fl fadd].
+      destruct (IHl (Qred (acc + qa)) Hc) as (q & Eq & Hq); [intros; apply Hl; right; assumption|].
+      exists q. split; [exact Eq|]. rewrite Hq, Qred_correct, Ha. unfold zsum. cbn [fold_right].
+      rewrite inject_Z_plus. ring.
+  Qed.
+
+  Lemma asum_slice_ok : forall lo hi n c, hi = lo + n -> 0 <= lo -> 0 <= n -> lo + n <= nr -> 0 <= c < nc ->
+    exists q, asum_slice SM2 lo hi c = Some (VFlt (Fin q)) /\
+              q == inject_Z (zsum (map (fun k => sm2 k c) (zrange lo n))).
+  Proof.
+    intros lo hi n c -> Hlo Hn Hhi Hc. unfold asum_slice. rewrite HSM2. rewrite norm_idx_ok by lia.
+    unfold slice_bound. replace (lo <? 0) with false by lia. replace (lo + n <? 0) with false by lia.
+    replace (Z.min lo nr) with lo by lia. replace (Z.min (lo + n) nr) with (lo + n) by lia.
+    replace (lo + n - lo) with n by lia. rewrite irange_zrange.
+    destruct (sum_fold c (zrange lo n) 0%Q Hc) as (q & Eq & Hq).
+    { intros k Hk. apply in_zrange in Hk. lia. }
+    exists q. split; [rewrite Eq; reflexivity|]. rewrite Hq. ring.
+  Qed.
+
+  Let row_ok (S SM : arr) (r : Z) (W : Z -> Prop) : Prop :=
+    forall c, 0 <= c < nc ->
+      (W c -> fval (adata S [r; c]) (E4 r c) /\ fval (adata SM [r; c]) (inject_Z (N4 r c))) /\
+      (~ W c -> adata S [r; c] = VFlt (Fin 0) /\ adata SM [r; c] = adata SM2 [r; c]).
+
+  Let I_in (r i : Z) (st : state) : Prop :=
+    exists S SM o3 o4 o5,
+      st = mkSt [Some (VInt (nr + 1)); Some (VInt nc); Some (VInt r); o3; o4; o5]
+                [Some S3; Some SM2; Some CL; Some CR; Some RC; Some RCR; Some S; Some SM] /\
+      ashape S = [nr; nc] /\ ashape SM = [nr; nc] /\
+      (forall r', 0 <= r' < r -> row_ok S SM r' (fun c => In c cols)) /\
+      (forall r', r < r' -> row_ok S SM r' (fun _ => False)) /\
+      row_ok S SM r (written cols i).
+  Let I_out (r : Z) (st : state) : Prop :=
+    exists S SM o2 o3 o4 o5,
+      st = mkSt [Some (VInt (nr + 1)); Some (VInt nc); o2; o3; o4; o5]
+                [Some S3; Some SM2; Some CL; Some CR; Some RC; Some RCR; Some S; Some SM] /\
+      ashape S = [nr; nc] /\ ashape SM = [nr; nc] /\
+      (forall r', 0 <= r' < r -> row_ok S SM r' (fun c => In c cols)) /\
+      (forall r', r <= r' -> row_ok S SM r' (fun _ => False)).
+
+  Theorem ir_step4 :
+    exists S SM, run_kernel cbca_step_4 [] [S3; SM2; CL; CR; RC; RCR] = Some [S; SM] /\
+      ashape S = [nr; nc] /\ ashape SM = [nr; nc] /\
+      forall r c, 0 <= r < nr -> 0 <= c < nc ->
+        (In c cols -> fval (adata S [r; c]) (E4 r c) /\ fval (adata SM [r; c]) (inject_Z (N4 r c))) /\
+        (~ In c cols -> adata S [r; c] = VFlt (Fin 0) /\ adata SM [r; c] = adata SM2 [r; c]).
+  Proof.
+    destruct HCL as [HCLs HCLd]. destruct HCR as [HCRs HCRd].
+    destruct HRC as [HRCs HRCd]. destruct HRCR as [HRCRs HRCRd]. fold m in HRCs, HRCd, HRCRs, HRCRd.
+    unfold run_kernel. kred. do 3 (rewrite exec_block_cons; kred; rewrite ?HS3; kred).
+    replace (nr + 1 - 1) with nr by lia.
+    replace ((0 <=? nr) && ((0 <=? nc) && true)) with true by lia.
+    rewrite exec_block_cons; kred.
+    rewrite exec_block_cons, exec_for. kred. rewrite py_range_up. replace (nr - 0) with nr by lia.
+    set (body := exec_block _). knorm.
+    set (Z0 := mkArr [nr; nc] (fun _ => VFlt (Fin 0))).
+    destruct (loop_zrange' body 2%nat I_out 0 nr
+               (mkSt [Some (VInt (nr + 1)); Some (VInt nc); None; None; None; None]
+                     [Some S3; Some SM2; Some CL; Some CR; Some RC; Some RCR; Some Z0; Some SM2])) as (st' & E & I'); auto.
+    { exists Z0, SM2, None, None, None, None.
+      split; [reflexivity | split; [reflexivity | split; [assumption | split]]].
+      - intros; lia.
+      - intros r' _ c _. split; [tauto | intros _; split; reflexivity]. }
+    { (* one image row *)
+      intros r st0 Hr (S & SM & o2 & o3 & o4 & o5 & -> & HS & HSM & Hdone & Hzero).
+      unfold body. kred. rewrite exec_block_cons, exec_for. kred. rewrite HRCs. kred. rewrite py_range_up.
+      replace (m - 0) with m by lia. set (body2 := exec_block _). knorm.
+      destruct (loop_zrange' body2 3%nat (I_in r) 0 m
+                 (mkSt [Some (VInt (nr + 1)); Some (VInt nc); Some (VInt r); o3; o4; o5]
+                       [Some S3; Some SM2; Some CL; Some CR; Some RC; Some RCR; Some S; Some SM])) as (st2 & E2' & I2); auto.
+      { unfold m. lia. }
+      { exists S, SM, o3, o4, o5.
+        split; [reflexivity | split; [assumption | split; [assumption | split; [assumption | split]]]].
+        - intros r' Hr'. apply Hzero. lia.
+        - intros c Hc. destruct (Hzero r (Z.le_refl r) c Hc) as [_ Hz]. split.
+          + intros W. exfalso. eapply written_0; eauto.
+          + intros _. apply Hz. tauto. }
+      { (* one entry of range_col *)
+        intros i st1 Hi (Sa & SMa & o3' & o4' & o5' & -> & HSa & HSMa & Hdone1 & Hzero1 & Hrow).
+        assert (Hin : In (colz cols i) cols) by (apply colz_in; fold m; lia).
+        set (c := colz cols i) in *.
+        destruct (Hcols c Hin) as [Hc Hcc]. destruct (Harms r c) as [Ht Hb]; [lia | exact Hin |].
+        unfold body2. kred.
+        do 2 (rewrite exec_block_cons; kred;
+              rewrite (aread1_ok RC m), (aread1_ok RCR m) by (auto; lia); rewrite HRCd, HRCRd by lia; fold (colz cols i); fold c; kred;
+              rewrite (aread3_ok CL nr nc 4), (aread3_ok CR nr ncR 4) by (auto; lia);
+              rewrite HCLd, HCRd by lia; kred).
+        unfold arm_at. cbn [Z.eqb Pos.eqb].
+        fold (v_top crossL crossR d r c). fold (v_bot crossL crossR d r c).
+        set (top := v_top crossL crossR d r c) in *. set (bot := v_bot crossL crossR d r c) in *.
+        (* step4[col, c] = step3[col + bot, c] - step3[col - top - 1, c] *)
+        rewrite exec_block_cons. kred.
+        rewrite (aread1_ok RC m) by (auto; lia). rewrite HRCd by lia. fold (colz cols i). fold c. kred.
+        rewrite (aread2_ok S3 (nr + 1) nc) by (auto; lia).
+        rewrite (aread2_wrap0 S3 (nr + 1) nc) by (auto; lia).
+        destruct (HS3d (r + bot) c) as (q1 & Eq1 & Hq1); [lia | lia |].
+        destruct (HS3d (wrap (nr + 1) (r - top - 1)) c) as (q2 & Eq2 & Hq2);
+          [unfold wrap; destruct (r - top - 1 <? 0) eqn:?; lia | lia |].
+        rewrite Eq1, Eq2. kred.
+        rewrite (awrite2_ok Sa nr nc) by (auto; lia). kred.
+        (* sum4[col, c] += top + bot *)
+        rewrite exec_block_cons. kred.
+        rewrite (aread1_ok RC m) by (auto; lia). rewrite HRCd by lia. fold (colz cols i). fold c. kred.
+        rewrite (aread2_ok SMa nr nc) by (auto; lia).
+        destruct (Hrow c Hc) as [_ Hfresh].
+        destruct Hfresh as [_ HSMz]; [apply written_fresh; auto; fold m; lia|].
+        destruct (HSM2d r c) as (q0 & Eq0 & Hq0); [lia | lia |].
+        rewrite HSMz, Eq0. kred. rewrite (awrite2_ok SMa nr nc) by (auto; lia). kred.
+        (* if top != 0: sum4[col, c] += np.sum(sum2[col - top : col, c]) *)
+        destruct (asum_slice_ok (r - top) r top c) as (qt & Et & Hqt); try lia.
+        destruct (asum_slice_ok (r + 1) (r + bot + 1) bot c) as (qb & Eb & Hqb); try lia.
+        assert (Hfin : forall (SMx : arr) (x : Q), ashape SMx = [nr; nc] ->
+                  (forall r' c', (r', c') <> (r, c) -> adata SMx [r'; c'] = adata SMa [r'; c']) ->
+                  adata SMx [r; c] = VFlt (Fin x) -> x == inject_Z (N4 r c) ->
+                  I_in r (i + 1)
+                    (mkSt [Some (VInt (nr + 1)); Some (VInt nc); Some (VInt r); Some (VInt i); Some (VInt top); Some (VInt bot)]
+                          [Some S3; Some SM2; Some CL; Some CR; Some RC; Some RCR;
+                           Some (aupd Sa [r; c] (VFlt (fsub (Fin q1) (Fin q2)))); Some SMx])).
+        { intros SMx x HSMx Hoth Hx Hxv.
+          eexists _, _, (Some (VInt i)), (Some (VInt top)), (Some (VInt bot)).
+          split; [reflexivity | split; [assumption | split; [assumption | split; [| split]]]].
+          - intros r' Hr' c' Hc'. rewrite Hoth by (intro X; inversion X; lia).
+            rewrite !aupd2_other by (intro X; inversion X; lia). apply Hdone1; auto.
+          - intros r' Hr' c' Hc'. rewrite Hoth by (intro X; inversion X; lia).
+            rewrite !aupd2_other by (intro X; inversion X; lia). apply Hzero1; auto.
+          - intros c' Hc'. destruct (Z.eq_dec c' c) as [->|Hne].
+            + rewrite !aupd2_same. split.
+              * intros _. split.
+                -- exists (Qred (q1 - q2)). split; [reflexivity|]. unfold E4. fold top. fold bot.
+                   rewrite Qred_correct, qsub_ok, Hq1, Hq2. reflexivity.
+                -- exists x. split; assumption.
+              * intros W. exfalso. apply W. apply written_succ; [lia|]. right. reflexivity.
+            + rewrite Hoth by (intro X; inversion X; lia).
+              rewrite !aupd2_other by (intro X; inversion X; lia).
+              destruct (Hrow c' Hc') as [H1 H2]. split.
+              * intros W. apply written_succ in W; [|lia].
+                destruct W as [W | W]; [auto | exfalso; apply Hne; symmetry; exact W].
+              * intros W. apply H2. intro W'. apply W. apply written_succ; [lia|]. left. exact W'. }
+        assert (Hoth : forall (SMx : arr), 
+                  (forall r' c', (r', c') <> (r, c) -> adata SMx [r'; c'] = adata SMa [r'; c']) ->
+                  forall v r' c', (r', c') <> (r, c) -> adata (aupd SMx [r; c] v) [r'; c'] = adata SMa [r'; c']).
+        { intros SMx H v r' c' Hne. rewrite aupd2_other by exact Hne. apply H. exact Hne. }
+        assert (Hoth0 : forall r' c', (r', c') <> (r, c) -> adata SMa [r'; c'] = adata SMa [r'; c']) by reflexivity.
+        assert (HN4 : inject_Z (N4 r c) ==
+                  q0 + inject_Z (top + bot) + (if top =? 0 then 0 else qt) + (if bot =? 0 then 0 else qb)).
+        { unfold N4. fold top. fold bot. cbv zeta. rewrite !inject_Z_plus, Hq0.
+          destruct (top =? 0); destruct (bot =? 0); rewrite ?Hqt, ?Hqb; change (inject_Z 0) with 0%Q; ring. }
+        knorm. rewrite exec_block_cons, exec_if. kred.
+        destruct (top =? 0) eqn:Etop; cbn [negb bz Z.eqb Pos.eqb].
+        - (* top = 0 *)
+          rewrite exec_block_nil. rewrite exec_block_cons, exec_if. kred.
+          destruct (bot =? 0) eqn:Ebot; cbn [negb bz Z.eqb Pos.eqb].
+          + rewrite !exec_block_nil. eexists. split; [reflexivity|].
+            eapply Hfin; [exact HSMa | apply Hoth; exact Hoth0 | apply aupd2_same |].
+            cbn [fadd]. rewrite Qred_correct, HN4. ring.
+          + rewrite exec_block_cons. kred.
+            rewrite (aread1_ok RC m) by (auto; lia). rewrite HRCd by lia. fold (colz cols i). fold c. kred.
+            rewrite (aread2_ok _ nr nc) by (auto; lia). rewrite aupd2_same. rewrite Eb. kred.
+            rewrite (awrite2_ok _ nr nc) by (auto; lia). kred.
+            rewrite !exec_block_nil. eexists. split; [reflexivity|].
+            eapply Hfin; [exact HSMa | apply Hoth; apply Hoth; exact Hoth0 | apply aupd2_same |].
+            cbn [fadd]. rewrite !Qred_correct, HN4. ring.
+        - (* top <> 0 *)
+          rewrite exec_block_cons. kred.
+          rewrite (aread1_ok RC m) by (auto; lia). rewrite HRCd by lia. fold (colz cols i). fold c. kred.
+          rewrite (aread2_ok _ nr nc) by (auto; lia). rewrite aupd2_same. rewrite Et. kred.
+          rewrite (awrite2_ok _ nr nc) by (auto; lia). kred.
+          rewrite exec_block_nil. rewrite exec_block_cons, exec_if. kred.
+          destruct (bot =? 0) eqn:Ebot; cbn [negb bz Z.eqb Pos.eqb].
+          + rewrite !exec_block_nil. eexists. split; [reflexivity|].
+            eapply Hfin; [exact HSMa | apply Hoth; apply Hoth; exact Hoth0 | apply aupd2_same |].
+            cbn [fadd]. rewrite !Qred_correct, HN4. ring.
+          + rewrite exec_block_cons. kred.
+            rewrite (aread1_ok RC m) by (auto; lia). rewrite HRCd by lia. fold (colz cols i). fold c. kred.
+            rewrite (aread2_ok _ nr nc) by (auto; lia). rewrite aupd2_same. rewrite Eb. kred.
+            rewrite (awrite2_ok _ nr nc) by (auto; lia). kred.
+            rewrite !exec_block_nil. eexists. split; [reflexivity|].
+            eapply Hfin; [exact HSMa | apply Hoth; apply Hoth; apply Hoth; exact Hoth0 | apply aupd2_same |].
+            cbn [fadd]. rewrite !Qred_correct, HN4. ring. }
+      rewrite E2'. replace (0 + m) with m in I2 by lia.
+      destruct I2 as (S2 & SM2' & o3'' & o4'' & o5'' & -> & HS2 & HSM2' & Hdone2 & Hzero2 & Hrow2).
+      rewrite exec_block_nil. eexists. split; [reflexivity|].
+      exists S2, SM2', (Some (VInt r)), o3'', o4'', o5''.
+      split; [reflexivity | split; [assumption | split; [assumption | split]]].
+      - intros r' Hr'. destruct (Z.eq_dec r' r) as [->|].
+        + intros c Hc. destruct (Hrow2 c Hc) as [H1 H2]. split.
+          * intros Hin. apply H1. apply written_all. exact Hin.
+          * intros Hnin. apply H2. intro W. apply Hnin. apply written_all in W. exact W.
+        + apply Hdone2. lia.
+      - intros r' Hr'. apply Hzero2. lia. }
+    rewrite E. replace (0 + nr) with nr in I' by lia.
+    destruct I' as (S & SM & o2 & o3 & o4 & o5 & -> & HS & HSM & Hdone & _).
+    rewrite exec_block_nil. kred. exists S, SM.
+    split; [reflexivity | split; [assumption | split; [assumption|]]].
+    intros r c Hr Hc. apply (Hdone r); auto.
+  Qed.
+End Step4.
